@@ -364,7 +364,14 @@ where
                 let (req, sent) = send_req(Ok(value));
                 match tx.send(req).await {
                     Ok(()) => Ok(sent),
-                    Err(err) => Err(SendError::Closed(err.0.value.expect("unreachable"))),
+                    Err(err) => {
+                        // The channel may have been disconnected while waiting for queue space.
+                        let value = err.0.value.expect("unreachable");
+                        match self.remote_send_err_rx.borrow().as_ref() {
+                            Some(err) => Err(SendError::from_remote_send_error(err.clone(), value)),
+                            None => Err(SendError::Closed(value)),
+                        }
+                    }
                 }
             }
             None => Err(SendError::Closed(value)),
@@ -429,7 +436,10 @@ where
                 let tx = (*tx).clone();
                 match tx.reserve_owned().await {
                     Ok(permit) => Ok(Permit(permit)),
-                    Err(_) => Err(SendError::Closed(())),
+                    Err(_) => match self.remote_send_err_rx.borrow().as_ref() {
+                        Some(err) => Err(SendError::from_remote_send_error(err.clone(), ())),
+                        None => Err(SendError::Closed(())),
+                    },
                 }
             }
             _ => Err(SendError::Closed(())),
